@@ -68,7 +68,7 @@ func c14gen(rng *rand.Rand, maxLen, maxMsg int, poolN int) []c14op {
 			o.s = randScalar(rng)
 		case 3:
 			o.pt = rng.Intn(poolN)
-			o.rep = rng.Intn(6)
+			o.rep = rng.Intn(NumRepKinds)
 		case 4:
 			if rng.Intn(3) != 0 { // fewer challenges: let pending data accumulate
 				o.kind = 1
@@ -134,6 +134,10 @@ func c14run(c *mon.Ctx, proto string, ops []c14op, pool *Pool, rng *rand.Rand, c
 				l = randNonZeroP(rng)
 			case 5:
 				l = new(big.Int).Sub(ref.P, bigOne)
+			case 6:
+				l = repLambdas[rng.Intn(len(repLambdas))]
+			case 7:
+				l = new(big.Int).Mod(new(big.Int).Mul(big.NewInt(int64(1+rng.Intn(3))), rInvFp), ref.P)
 			}
 			e := ElemFromRef(pool.P[o.pt], l, flip)
 			keep := e
